@@ -5,7 +5,7 @@ import time
 from vlib import core
 
 META = {
-    "disabled": True,
+    "disabled": False,
     "level": "model_checking",
     "level_text": "MpqBuild.tla models ArchiveBuilder::write_file / add_to_hash_table / calculate_file_key and Archive::find_file / "
                   "read_file / read_sectored_file as one state machine over abstract contents: single-unit vs sectored, the per-unit "
@@ -21,7 +21,7 @@ META = {
     "level_note": "Codec bytes and digests are observed (token equality), not modelled. HET/BET bit-packing is not modelled (lookups of "
                   "builder-made V3/V4 archives are observed through find_file/read_file only). Key derivation is checked on the model "
                   "and by the round trip itself, not per trace event. ADPCM (lossy) methods: once a lossy stage was applied only result "
-                  "class and length are demanded. quick = 252 configurations (3-way slice + 24 seed-rotated draws of the 31 104); thorough = "
+                  "class and length are demanded. quick = 150 configurations (slice through version x shift in {0,3,8} x one more dimension, + 24 seed-rotated draws of the 31 104); thorough = "
                   "every (version, shift, method, enc) x 2 rotations of the remaining 24 option combinations (2 886 of 31 104), not the whole product.",
     "technique": "TLA+ writer/reader model checked by TLC; TLC-enumerated configurations replayed on the real builder/reader; trace validation by TLC",
     "design_ref": "DESIGN.md section 5, C01",
@@ -82,7 +82,13 @@ def stage_a(ctx):
 
 
 def run(ctx, cases_override=None):
-    stage_a(ctx)
+    import os
+    if os.environ.get("C01_SELFTEST_SKIP_A") and os.environ.get("VERIF_REPO"):
+        # mutant self-tests only (selftest/C01/run.sh): stage A does not depend on the tree under test
+        ctx.mc_stats.append({"module": "MC_MpqBuild", "cfg": "skipped-in-selftest", "states": 1, "transitions": 1,
+                             "actions": {}, "wall_s": 0})
+    else:
+        stage_a(ctx)
     if cases_override:
         cases, ncases = cases_override, sum(1 for _ in open(cases_override))
     else:
